@@ -48,7 +48,7 @@ class C03(Check):
 
     def strata(self, tier):
         s = [('S-main', 6), ('S-heun', 3), ('S-adaptive', 3), ('S-fault', 1), ('S-nonmult', 1), ('S-onerow', 1),
-             ('S-torch', 1), ('S-jax', 2), ('S-complex', 1)]
+             ('S-torch', 1), ('S-jax', 2), ('S-complex', 1), ('S-big', 1)]
         if tier == 'thorough':
             s.append(('S-fortran', 1))      # f2py build per run (~6-10 s): thorough tier only
         return s
@@ -67,6 +67,12 @@ class C03(Check):
     def generate(self, rng, stratum, tier):
         # a third of the models carry multi-operator nodes (a readout operator behind the node's first operator)
         spec = models.gen_net(rng, hier=rng.random() < 0.25, readouts=(0.4, 0.0, 0.5, 0.6) if rng.random() < 0.35 else None)
+        if stratum == 'S-big':
+            # sizes that toy models never reach: 9-16 nodes (two-digit suffixes in generated names, vectorized groups of 10+),
+            # dozens of edges, now and then more than a thousand steps
+            spec = models.gen_net(rng, n_nodes=rng.randint(9, 16), max_edges=rng.randint(15, 40), hier=rng.random() < 0.2,
+                                  libs=rng.choice([('lin', 'sat', 'osc', 'leak', 'integ', 'linl'), ('lin',), ('lin', 'leak')]),
+                                  readouts=(0.3, 0.0, 0.5, 0.6) if rng.random() < 0.3 else None)
         if stratum == 'S-complex':
             spec = models.gen_net(rng, libs=('cz',), hier=rng.random() < 0.2)     # complex-valued states
         elif rng.random() < 0.25:
@@ -75,6 +81,9 @@ class C03(Check):
         m = rng.randint(1, 7)
         kmax = max(2, min(60, int(400 // m), int(8.0 / (m * dt)) or 2))
         K = rng.randint(2, kmax)
+        if stratum == 'S-big' and rng.random() < 0.3:
+            dt, m = rng.choice([1e-4, 1e-3]), rng.choice([1, 4])
+            K = rng.randint(1030, 1400) // m          # more than 1024 steps
         solver = 'euler'
         kw = {}
         if stratum == 'S-fortran':
@@ -103,7 +112,7 @@ class C03(Check):
             if method == 'RK23':
                 rtol = max(rtol, 1e-8)
             kw = {'method': method, 'rtol': rtol, 'atol': rtol * 1e-2}
-        elif stratum in ('S-main', 'S-fault', 'S-nonmult', 'S-onerow'):
+        elif stratum in ('S-main', 'S-fault', 'S-nonmult', 'S-onerow', 'S-big'):
             solver = rng.choice(['euler', 'euler', 'heun']) if stratum != 'S-main' else 'euler'
         if stratum == 'S-onerow':
             K = 1
